@@ -423,6 +423,29 @@ def gen_callers(tree, server):
             % (cstrs(referers('serve_client')), cstrs(referers('handle_request')), cstrs(public)))
 
 
+# ------------------------------------------- part 3b: BaseProxy.__init__ hook placement
+HOOK = norm('util.register_after_fork(self, BaseProxy._after_fork)')
+INCREF_IF = norm("""if incref:
+    self._incref()""")
+
+
+def gen_proxy_init(tree):
+    """the after-fork hook (a proxy built with incref=False takes its reference through it in a
+    spawned child) must be registered unconditionally, after the guarded _incref()"""
+    fn = find_method(find_class(tree, 'BaseProxy'), '__init__')
+    top = [ast.unparse(x) for x in fn.body]
+    everywhere = [ast.unparse(x) for x in ast.walk(fn) if isinstance(x, ast.stmt)]
+    if HOOK not in everywhere:
+        raise GenError('BaseProxy.__init__: register_after_fork(self, BaseProxy._after_fork) not found')
+    if INCREF_IF not in everywhere:
+        raise GenError('BaseProxy.__init__: `if incref: self._incref()` not found')
+    uncond = HOOK in top
+    guarded = INCREF_IF in top and (not uncond or top.index(INCREF_IF) < top.index(HOOK))
+    return ('Definition after_fork_hook_unconditional : bool := %s.\n'
+            'Definition incref_guarded_then_hook : bool := %s.\n'
+            % ('true' if uncond else 'false', 'true' if (uncond and guarded) else 'false'))
+
+
 # ------------------------------------------------------------- part 4: registry
 PROBE = r'''
 import json, threading
@@ -478,7 +501,8 @@ def generate(repo):
              'From Coq Require Import String ZArith List Bool.',
              'From BV Require Import Lib.ManagerLib.',
              'Import ListNotations.', 'Open Scope Z_scope.', '',
-             gen_refcounts(server), gen_skeletons(server), gen_callers(tree, server), gen_registry(repo)]
+             gen_refcounts(server), gen_skeletons(server), gen_callers(tree, server), gen_proxy_init(tree),
+             gen_registry(repo)]
     return '\n'.join(parts)
 
 
